@@ -83,6 +83,20 @@ class Result(object):
         return "<result of %s>" % self.who
 
 
+def make_result(kind, who):
+    """what a body returns: usually a unique object, sometimes a falsy value
+    (the library must not confuse "returned something falsy" with "not done")"""
+    if kind == 'none':
+        return None
+    if kind == 'false':
+        return False
+    if kind == 'zero':
+        return 0
+    if kind == 'empty':
+        return []
+    return Result(who)
+
+
 async def body(trace, spec, who):
     trace.log('enter', who)
     try:
@@ -117,7 +131,7 @@ async def body(trace, spec, who):
         exc = make_exception(spec.get('exc'), who)
         trace.log('raise', who, exc=exc)
         raise exc
-    val = Result(who)
+    val = make_result(spec.get('retval'), who)
     trace.log('return', who, val=val)
     return val
 
@@ -236,12 +250,22 @@ def build(trace, spec, top=True, registry=None):
     if spec.get('watch'):
         from asynciojobs import Watch
         kwds['watch'] = Watch()
+    # two construction styles: everything given to the constructor, or an
+    # empty scheduler filled afterwards with add() / update()
+    incremental = spec.get('style') == 'incremental'
+    first = [] if incremental else members
     if top and spec.get('pure'):
-        sched = VPureScheduler(*members, **kwds)
+        sched = VPureScheduler(*first, **kwds)
     else:
-        sched = VScheduler(*members, critical=spec.get('critical', True),
+        sched = VScheduler(*first, critical=spec.get('critical', True),
                            forever=spec.get('forever', False),
                            label=spec.get('label', spec['id']), **kwds)
+    if incremental:
+        for k, job in enumerate(members):
+            if k % 2:
+                sched.add(job)
+            else:
+                sched.update([job, None])
     sched.trace = trace
     sched.vid = spec['id']
     sched._vh = spec.get('hash', 0)
@@ -361,7 +385,10 @@ def execute(spec, loop_seed=None, horizon=None, quiescent=None, run_on=1000.0,
             if quiescent is not None:
                 loop.on_quiescent = lambda l, nxt: quiescent(trace, reg, l, nxt)
             try:
-                value = top.run()
+                if spec.get('entry') == 'co_run':
+                    value = loop.run_until_complete(top.co_run())
+                else:
+                    value = top.run()
                 exe.verdict = ('return', value)
             except Wedged as exc:
                 exe.verdict = ('wedged', str(exc))
